@@ -23,7 +23,7 @@ ASSUMPTIONS = [
 SHARDS = {'quick': 8, 'thorough': 16}
 BUDGET_S = {'quick': 50, 'thorough': 540}
 N_TREES = {'quick': 640, 'thorough': 12000}
-MIN_OBS = {'handler_calls_checked': {'quick': 30000, 'thorough': 500000}, 'procedure_monitor': {'quick': 2000, 'thorough': 2000}}
+MIN_OBS = {'handler_calls_checked': {'quick': 10000, 'thorough': 150000}, 'procedure_monitor': {'quick': 2000, 'thorough': 2000}}
 
 REAL_TRANSPILE = [
 	'tests.unit.rogw.tranp.implements.cpp.transpiler.fixtures.fixture_py2cpp',
